@@ -179,6 +179,19 @@ fn operation_variants() -> Vec<(&'static str, Vec<(String, String)>, Vec<(String
             e(&[("GetUser", "ops/q.graphql"), ("UserFrag", "ops/frags/f.graphql"), ("PostFrag", "ops/frags/g.graphql")]),
         ),
         (
+            // selection sets nested 12 deep (indentation far beyond any fixed-size buffer): every segment must still sit on
+            // its identifier (seeded change C06-11 tracked the column of an indentation longer than the one it wrote)
+            "nested-12-deep",
+            vec![
+                ("schema/tree.graphql".to_string(), "type Tree { id: ID! label: String child: Tree }\nextend type Query { tree: Tree }\n".to_string()),
+                (
+                    "ops/deep.graphql".to_string(),
+                    format!("query Deep {{\n  tree {}{}\n}}\n", "{ id child ".repeat(11), "{ id label }".to_string() + &" }".repeat(11)),
+                ),
+            ],
+            e(&[("Deep", "ops/deep.graphql"), ("Tree", "schema/tree.graphql"), ("label", "schema/tree.graphql"), ("child", "schema/tree.graphql"), ("tree", "schema/tree.graphql")]),
+        ),
+        (
             "anonymous-and-things",
             vec![("ops/deep/dir/a.graphql".to_string(), "query { things { ... on User { name } ... on Post { title } } hello }\n".to_string())],
             vec![],
